@@ -106,7 +106,7 @@ def check(case):
                        f"empty cell {key} of metric {it['name']} is {got!r}, expected NaN")
             else:
                 exp = M.ref_metric(it, case, mask)
-                M.need(np.ndim(got) == 0 and M.close(got, exp),
+                M.need(np.ndim(got) == 0 and M.close(got, exp, 1e-9, max(abs(float(exp)), 1e-300)),
                        f"by_group[{key}][{it['name']}] = {got!r}, metric on exactly those {cnt} rows = {exp!r}")
 
     # --- overall ---------------------------------------------------------------------------------
